@@ -240,7 +240,8 @@ namespace Givaro {
         }
         if (degB == 0) // cste
         {
-            return div(Q, A, B[0]);
+            const Type_t b0(B[0]); // Q may be the same object as B
+            return div(Q, A, b0);
         }
 
             // Fast division: via multiplications
@@ -384,6 +385,10 @@ namespace Givaro {
     inline typename Poly1Dom<Domain,Dense>::Rep& Poly1Dom<Domain,Dense>::divmod( Rep& Q, Rep& R, const Rep& A,  const Rep& B) const
     // returns Q such that A = B Q + R
     {
+        if (&Q == &A || &Q == &B || &R == &A || &R == &B) { // an output may be the same object as A or B
+            Rep Qt, Rt; divmod(Qt, Rt, A, B);
+            assign(Q, Qt); return assign(R, Rt);
+        }
         div(Q,A,B);
         return maxpy(R,Q,B,A); // R <-- A - Q * B
     }
@@ -392,6 +397,7 @@ namespace Givaro {
     inline typename Poly1Dom<Domain,Dense>::Rep& Poly1Dom<Domain,Dense>::divmodin( Rep& Q, Rep& R, const Rep& B) const
     // returns Q such that R = B Q + newR
     {
+        if (&Q == &B) { Rep Bt; assign(Bt, B); return divmodin(Q, R, Bt); } // Q may be the same object as B
         div(Q, R, B);
         return maxpyin(R, Q, B);
     }
@@ -402,6 +408,10 @@ namespace Givaro {
     ( Rep& Q, Rep& R, Type_t& m, const Rep& A, const Rep& B) const
     // returns Q ...
     {
+        if (&Q == &A || &Q == &B || &R == &A || &R == &B) { // an output may be the same object as A or B
+            Rep Qt, Rt; pdivmod(Qt, Rt, m, A, B);
+            assign(R, Rt); return assign(Q, Qt);
+        }
         Degree degB; degree(degB, B);
 #ifdef __GIVARO_DEBUG
         if (degB == Degree::deginfty)
@@ -475,6 +485,7 @@ namespace Givaro {
     inline typename Poly1Dom<Domain,Dense>::Rep& Poly1Dom<Domain,Dense>::pmod
     ( Rep& R, Type_t& m, const Rep& A, const Rep& B) const
     {
+        if (&R == &B) { Rep Rt; pmod(Rt, m, A, B); return assign(R, Rt); } // R may be the same object as B
         Degree degB; degree(degB, B);
 #ifdef __GIVARO_DEBUG
         if (degB == Degree::deginfty)
